@@ -92,3 +92,17 @@ def drop_method_call_stmt(fd, method, nth=0):
                     seen[0] += 1
     walk({'b': fd.body}, f)
     return done[0]
+
+
+def replace_bool_lit(fd, old, new, nth=0):
+    seen = [0]
+    done = [False]
+
+    def f(node):
+        if node.get('_') == 'Lit::Bool' and node.get('value') is old and not done[0]:
+            if seen[0] == nth:
+                node['value'] = new
+                done[0] = True
+            seen[0] += 1
+    walk(fd.body, f)
+    return done[0]
